@@ -35,6 +35,24 @@ CHECKS = {
    text="Generated Value and Type trees (all variants, edge floats, odd strings, empty aggregates, non-transportable nodes at any depth), all values of depth <= 2 over 8 leaves exhaustively, macro argument lists, and corrupted byte strings are pushed through the FFI encoders/decoders; results are compared with a harness-side model of the value, refusals are demanded where the property demands them.",
    note="The Type serde impls are exercised through serde_json with positional transcoding rather than bincode (variant indices are not observed on that leg); TypeNodeId/Value go through the real bincode path. One open known finding (ErrorV decodes to Unit).",
    design="2.C20"),
+ "C03": dict(
+   category="exploration",
+   technique="property testing over generated well-typed programs and type-changing near-miss mutants with instrumented bounds assertions; crash-isolating workers",
+   text="Generated core-language programs and programs after 1-2 type-changing mutations (tuple/lambda/string/int for a number, projection, call, arity changes, self, records, arrays, wrong annotations) are classified by the repository's own type checker; every accepted one must compile on both backends and run its global initialisation and 1-16 dsp calls on both runtimes without panic, abort, trap or hang, with the declared output width. Out-of-bounds state/global/upvalue accesses and stale closure handles are made visible by the verif-hooks assertions.",
+   note="Only the instrumented access sites plus the VM's own debug assertions are observed; no ASan run. Seven recorded findings (type-checker holes and crash sites) are tolerated by signature or switched off in the generator and pinned by replays.",
+   design="2.C03"),
+ "C05": dict(
+   category="exploration",
+   technique="trace-vs-layout invariant checking on generated stateful call trees (access-recording hook), plus differential VM/WASM state words",
+   text="For generated programs with nested stateful calls, the same function at several sites, tuple-valued self and delays, every state access the VM performs on the dsp storage is recorded by the hook and must coincide (offset, size, kind) with a leaf of the published state skeleton; storage size, cursor reset and cursor range are checked, and the flat state words are compared with the WASM runtime after every sample.",
+   note="Closure-owned storages are only bounds-checked. Program shapes of open findings shared with C01 are switched off (listed in evidence).",
+   design="2.C05"),
+ "C14": dict(
+   category="exploration",
+   technique="round-trip / idempotence property testing of the formatter over shipped sources, layout-comment mutants and synthetic programs, with AST fingerprint and comment-sequence oracles",
+   text="Every valid shipped source at 8 widths x 4 indents (exhaustive), thousands of layout/comment mutants and synthetic programs are formatted; the output must parse, have the same structural AST fingerprint, the same comment sequence, and be a fixed point. Seventeen formatter defects found this way are recorded; cases attributed to them by a token-level repair are discarded and counted, anything else is a violation.",
+   note="AST equality is a harness-side structural fingerprint of the lowered Program (spans ignored). Idempotence cannot be judged behind a structural defect (the first output does not parse).",
+   design="2.C14"),
 }
 
 NOT_YET = {
